@@ -96,6 +96,7 @@ def main() -> None:
 
     shard = getattr(mod, "SHARD", 250)
     files = []
+    desc_table, desc_index = [], {}
     for kind, rows in per_kind.items():
         k = mod.KINDS[kind]
         for s in range(0, len(rows), shard):
@@ -110,8 +111,16 @@ def main() -> None:
                 fh.write(f"Eval vm_compute in ({k['mismatch']} cases).\n")
                 if k.get("nontrivial"):
                     fh.write(f"Eval vm_compute in ({k['nontrivial']} cases).\n")
-            files.append({"file": name, "kind": kind, "has_nontrivial": bool(k.get("nontrivial")),
-                          "cases": [{"input": d, "observed": o} for d, o, _ in part]})
+            # descriptors are stored once (a descriptor that yields many Coq cases -- the live kinds -- would
+            # otherwise be written out once per case: gigabytes); cases refer to them by index
+            refs = []
+            for d, o, _ in part:
+                key = id(d), id(o)
+                if key not in desc_index:
+                    desc_index[key] = len(desc_table)
+                    desc_table.append({"input": d, "observed": o})
+                refs.append(desc_index[key])
+            files.append({"file": name, "kind": kind, "has_nontrivial": bool(k.get("nontrivial")), "cases": refs})
 
     extra = None
     if hasattr(mod, "extra_legs") and not inputs_file:
@@ -123,7 +132,7 @@ def main() -> None:
 
     dump_json(os.path.join(outdir, "meta.json"), {
         "property": mod.PROP, "tier": tier, "seed": seed,
-        "evaluations": n_eval, "files": files, "direct_violations": direct,
+        "evaluations": n_eval, "files": files, "descs": desc_table, "direct_violations": direct,
         "correspondence_unavailable": list(unavailable.values()),
         "input_distribution": dist, "samples": samples, "extra": extra,
         "rule": getattr(mod, "RULE", ""), "wall_s": time.time() - t0,
